@@ -94,6 +94,7 @@ fn account(st: &mut Stats, w: &World, e: &Exec, c19_set: &mut HashSet<u64>, c09_
     st.add("ops.burst", cs.bursts);
     st.add("ops.iterator_adaptors", cs.adaptors);
     st.add("ops.kept_matches_rechecked", cs.kept_matches_rechecked);
+    st.add("info.compile_debug_output_differs_between_two_compiles", e.p1.stats.compile_debug_differs + cs.compile_debug_differs);
     st.add("faults.closure_panic", cs.closure_panics);
     st.add("ops.next", cs.nexts);
     st.add("ops.matches", cs.matches);
